@@ -65,7 +65,18 @@ fn solve_case(case: &Value) -> Value {
             .map_err(|e| json!({"status": "err", "error": format!("write: {e}")}))?;
         let text = String::from_utf8(buf.into_inner().unwrap()).unwrap();
         let sol: Value = serde_json::from_str(&text).map_err(|e| json!({"status": "err", "error": format!("reparse: {e}")}))?;
-        Ok(json!({"status": "ok", "solution": sol, "init": init_status}))
+        let mut out = json!({"status": "ok", "solution": sol, "init": init_status});
+        if case["wantApprox"].as_bool().unwrap_or(false) {
+            // coordinate problems: the routing data the reader derived (location list of the coordinate index, approximated matrices)
+            let api = deserialize_problem(BufReader::new(problem_text.as_bytes())).map_err(|e| json!({"status": "toolerr", "error": e.to_string()}))?;
+            let locations = vrp_pragmatic::format::CoordIndex::new(&api).unique();
+            let matrices: Vec<Value> = create_approx_matrices(&api)
+                .iter()
+                .map(|m| json!({"profile": m.profile, "travelTimes": m.travel_times, "distances": m.distances}))
+                .collect();
+            out["approx"] = json!({"locations": locations, "matrices": matrices});
+        }
+        Ok(out)
     });
 
     let mut out = match result {
